@@ -121,10 +121,11 @@ theorem nTerminalsList_eq (l : List Policy) : nTerminalsList l = (l.map nTermina
   | nil => simp [nTerminalsList]
   | cons p ps ih => simp [nTerminalsList, ih]
 
-theorem liftList_eq (l : List CPolicy) : Conc.liftList l = l.map Conc.lift := by
+theorem liftUncheckedList_eq (l : List CPolicy) :
+    Conc.liftUncheckedList l = l.map Conc.liftUnchecked := by
   induction l with
-  | nil => simp [Conc.liftList]
-  | cons p ps ih => simp [Conc.liftList, ih]
+  | nil => simp [Conc.liftUncheckedList]
+  | cons p ps ih => simp [Conc.liftUncheckedList, ih]
 
 theorem timelockInfoList_eq (l : List CPolicy) :
     Conc.timelockInfoList l = l.map Conc.timelockInfo := by
